@@ -339,6 +339,19 @@ def job_padded_lengths(res, n, nb, prefer):
                 res.obs.append(Ob('the grid width given to PhaseSpace::setSize is the configured grid size', 'violated' if isinstance(c['grid'], int) else 'inconclusive', detail=str(c['grid']), key='setup-grid')); continue
             N = ms.to_int(c['N']); sp = ms.to_int(c['spacing']); bk = [b for b in (c['buckets'] or []) if isinstance(b, int)]
             if len(bk) != len(c['buckets'] or []): res.obs.append(Ob('bucket numbers are concrete on every path', 'inconclusive', key='setup-engine')); continue
+            # the bucket number of a bunch is the position of its entry in the filling pattern, counted from the end (main: "enumeration is inverse to the x coordinate"): entry i of nb -> bucket nb-1-i,
+            # for exactly the entries with a positive current on this path
+            filled = []
+            for i in range(nb):
+                ci = z3.Real('current%d' % i); so = z3.Solver(); so.add(*s.pc)
+                so.push(); so.add(ci > 0); pos = so.check() == z3.sat; so.pop(); so.push(); so.add(ci <= 0); zer = so.check() == z3.sat; so.pop()
+                filled.append(True if (pos and not zer) else False if (zer and not pos) else None)
+            if None not in filled and ('buckets-checked', tuple(filled), tuple(bk)) not in seen:
+                seen.add(('buckets-checked', tuple(filled), tuple(bk)))
+                want_bk = [nb - 1 - i for i in range(nb) if filled[i]]
+                okb = bk == want_bk
+                res.obs.append(Ob('set-up slice, filling pattern %s: the bunches sit in buckets %s (entry i of the pattern -> bucket %d-i), main hands the fields %s' % (['+' if f_ else '0' for f_ in filled], want_bk, nb - 1, bk),
+                                  'holds' if okb else 'violated', key='setup-bucket-numbers', cex=None if okb else {'replay': 'structural', 'pattern': filled, 'buckets': bk, 'expected': want_bk}))
             multi = not (isinstance(c['spacing'], int) and c['spacing'] == 0)
             # documented domain: buckets do not overlap - the bunch spacing, in grid cells and before rounding, is at least the grid width (irrelevant for a single bucket);
             # buffers of 2^31 cells and more are outside (allocation failure)
